@@ -279,7 +279,7 @@ func (e *Engine) autoInline(fn *ssa.Function) bool {
 func (f *Frame) inlineCall(callee *ssa.Function, args, bindings []string, reach string, st *State) []string {
 	sub := &Frame{eng: f.eng, ctx: f.ctx, fn: callee, top: f.top, parent: f, depth: f.depth + 1,
 		vals: map[ssa.Value]string{}, tuples: map[ssa.Value][]string{}, reach: map[*ssa.BasicBlock]string{},
-		endSt: map[*ssa.BasicBlock]*State{}}
+		endSt: map[*ssa.BasicBlock]*State{}, fromDefer: f.fromDefer || f.runningDefers}
 	for p := f; p != nil; p = p.parent {
 		if p.fn == callee {
 			f.bail("recursive inline of %s", callee.Name())
